@@ -101,6 +101,13 @@ def gen_cases(tier, seed):
     for cls in W.ALL:
         for i in range(per):
             cases.append({"cls": cls, "rs": f"C05:{seed}:{cls}:{i}", "tier": tier})
+    # constraints with length-based coverage < 1 (the safety options add their own constraints on top of the caller's)
+    for cls in ("kPathCover", "MinPathCover", "kLeastAbsErrors", "kMinPathError", "MinFlowDecomp"):
+        for i in range(per // 2):
+            cases.append({"cls": cls, "rs": f"C05len:{seed}:{cls}:{i}", "tier": tier, "want": "covlen"})
+    # many small dense conserving flows, few settings each: flow-safe paths used as constraints must never change the minimum
+    for i in range(240 if tier == "quick" else 4000):
+        cases.append({"cls": "MinFlowDecomp", "rs": f"C05fs:{seed}:{i}", "tier": tier, "want": "flowsafe"})
     return cases
 
 
@@ -118,8 +125,29 @@ def objective_of(cls, res):
 def run_case(case):
     viol = []; obs = collections.Counter()
     rng = gen.rng_for(case["rs"]); cls = case["cls"]
+    fs_settings = None
     if case.get("inst"):
         inst = copy.deepcopy(case["inst"])
+    elif case.get("want") == "flowsafe":
+        nodes, edges = gen.dag_random(rng, n=rng.randint(5, 7), p=rng.choice([0.45, 0.6]))
+        if not (6 <= len(edges) <= 11):
+            return {"viol": [], "obs": {"c05.shape_skipped": 1}, "nontrivial": False}
+        flow, planted = gen.plant_paths(rng, nodes, edges, npaths=rng.randint(3, 5), maxw=5)
+        if any(f == 0 for f in flow.values()):
+            return {"viol": [], "obs": {"c05.shape_skipped": 1}, "nontrivial": False}
+        wt = rng.choice(["int", "float"])
+        inst = {"cls": cls, "spec": gen.spec(nodes, edges, eattr={e: {"flow": (float(f) if wt == "float" else f)} for e, f in flow.items()}), "kw": {"flow_attr": "flow", "weight_type": wt}}
+        fs_settings = [{"optimize_with_greedy": False, "optimize_with_flow_safe_paths": False, "optimize_with_safe_paths": False},
+                       {"optimize_with_flow_safe_paths": True, "optimize_with_safe_paths": False, "optimize_with_safety_as_subpath_constraints": True},
+                       {"optimize_with_greedy": False, "optimize_with_flow_safe_paths": True, "optimize_with_safe_paths": False, "optimize_with_safety_as_subpath_constraints": True},
+                       {"optimize_with_greedy": False, "optimize_with_flow_safe_paths": True, "optimize_with_safe_paths": False}]
+    elif case.get("want") == "covlen":
+        for _ in range(60):
+            inst, meta = W.random_instance(rng, cls, small=True)
+            if inst["kw"].get("subpath_constraints_coverage_length", 1.0) < 1:
+                break
+        else:
+            return {"viol": [], "obs": {"c05.shape_skipped": 1}, "nontrivial": False}
     else:
         inst, meta = W.random_instance(rng, cls, small=True)
     kw = inst["kw"]
@@ -128,7 +156,7 @@ def run_case(case):
     if cls in W.ERR and kw.get("k") is None:
         kw["k"] = 2
     user_oo = {}
-    settings = settings_for(cls, rng, case["tier"])
+    settings = fs_settings or settings_for(cls, rng, case["tier"])
     old = (fp.MinFlowDecomp.subgraph_lowerbound_size, fp.MinFlowDecomp.subgraph_lowerbound_shift)
     fp.MinFlowDecomp.subgraph_lowerbound_size, fp.MinFlowDecomp.subgraph_lowerbound_shift = 3, 2
     M.TRACE.install()
